@@ -5,6 +5,8 @@
 import BlocV.Model.Mod.Csv
 import BlocV.Model.Mod.CsvPlugin
 import BlocV.Model.Mod.Utf8
+import BlocV.Model.Mod.Utf8Case
+import Std.Data.HashMap
 import BlocV.Spec.Csv
 import BlocV.Spec.Utf8
 
@@ -201,8 +203,6 @@ def u8Cmd (op : String) (args : List String) : String :=
     ops: em ct rw rv:<n> cl ap:<n> al:<hex|.|null> cc:<s|o|null> st at:<i> rm:<a>:<b> in:<a>:<b> ic:<a>:<s|o|null> s1:<a> s2:<a>:<b>
     (integers: decimal or `null`) -/
 
-def KF_RESERVE := "C18.utf8_reserve_unchecked"
-
 def parseWho (s : String) : Option (Option Utf8.Who) :=
   if s = "null" then some none else if s = "s" then some (some .self) else if s = "o" then some (some .other) else none
 
@@ -234,8 +234,7 @@ def showPVal : Utf8.PVal → String
   | .indexRange => "Er"
   | .hazardOob => "H:oob"
   | .hazardOverrun => "H:overrun"
-  | .foreignLength => "H:length"
-  | .foreignAlloc => "H:alloc"
+  | .outOfRange => "Eo"
 
 def pStateStr (s : Utf8.UStr) : String :=
   toString (Utf8.size s) ++ "," ++ toString s.rawSize ++ "," ++
@@ -247,11 +246,7 @@ def runP (memLimit : Nat) (v : Utf8.UStr) : Utf8.UStr → List Utf8.POp → List
   | _, [], acc, kf => (acc, kf)
   | u, op :: ops, acc, kf =>
     let r := Utf8.pstep memLimit u v op
-    if r.2.isHazard then
-      let kf' := match r.2 with
-        | .foreignLength | .foreignAlloc => some KF_RESERVE
-        | _ => kf
-      (showPVal r.2 :: acc, kf')
+    if r.2.isHazard then (showPVal r.2 :: acc, kf)
     else runP memLimit v r.1 ops ((showPVal r.2 ++ "," ++ pStateStr r.1) :: acc) kf
 
 def u8pCmd (mem uh vh : String) (toks : List String) : String :=
@@ -263,14 +258,62 @@ def u8pCmd (mem uh vh : String) (toks : List String) : String :=
     let (acc, kf) := runP mem.toNat! v u ops [] none
     "model=" ++ ";".intercalate acc.reverse ++ (match kf with | some k => " kf=" ++ k | none => "")
 
+/-! ### utf8: the case transformations and the transformation that stays installed (`u8t`), against the REAL plugin
+
+    u8t <table> <U: hex | .> <op> <op> …
+        table: `-` or entries `code:upper:lower` (hex) joined by `,` — the entries of the REAL character table
+               (utf8helper_charmap.cpp, read by vlib/props/c18f.py) for the sequences the case can touch; a sequence that is
+               not listed has no page
+        ops: tu (toupper) | tl (tolower) | al:<hex|.|null> (append(string)) | ap:<int|null> (append(integer)) | cl (clear)
+        -> model=<count>,<rawsize>,<string hex>;…  [kf=C18.utf8_transform_sticky]
+    `kf=`: an `append(string)` ran on an object with a transformation still installed and stored something else than a fresh
+    object would have. -/
+
+def KF_STICKY := "C18.utf8_transform_sticky"
+
+def hexToNat (s : String) : Nat := s.toList.foldl (fun a c => a * 16 + hexVal c) 0
+
+def parseCharMap (s : String) : Utf8.CharMap :=
+  let entries : List (Nat × Nat × Nat) :=
+    if s = "-" then [] else (s.splitOn ",").filterMap fun e =>
+      match e.splitOn ":" with
+      | [a, b, c] => some (hexToNat a, hexToNat b, hexToNat c)
+      | _ => none
+  let hm : Std.HashMap Nat (Nat × Nat) := entries.foldl (fun m e => m.insert e.1 (e.2.1, e.2.2)) {}
+  fun u => hm[u]?
+
+def parseTOp (tok : String) : Option Utf8.TOp :=
+  match tok.splitOn ":" with
+  | ["tu"] => some .toupper
+  | ["tl"] => some .tolower
+  | ["al", h] => some (.appendL (if h = "null" then none else some (parseBytes h)))
+  | ["ap", n] => (parseInt n).map .append
+  | ["cl"] => some .clear
+  | _ => none
+
+def runT (cm : Utf8.CharMap) : Utf8.TStr → List Utf8.TOp → List String → Option String → List String × Option String
+  | _, [], acc, kf => (acc, kf)
+  | t, op :: ops, acc, kf =>
+    let t' := Utf8.tstep cm t op
+    let kf' := match op with
+      | .appendL (some s) =>
+        if t.func != .nop && (Utf8.appendBytesT cm { t with func := .nop } s).u != t'.u then some KF_STICKY else kf
+      | _ => kf
+    runT cm t' ops (pStateStr t'.u :: acc) kf'
+
+def u8tCmd (tbl uh : String) (toks : List String) : String :=
+  match toks.mapM parseTOp with
+  | none => "bad-op"
+  | some ops =>
+    let (acc, kf) := runT (parseCharMap tbl) { u := Utf8.ofBytes (parseBytes uh) } ops [] none
+    "model=" ++ ";".intercalate acc.reverse ++ (match kf with | some k => " kf=" ++ k | none => "")
+
 /-! ### csv: the plugin glue (`csvp`), run against the REAL plugin by vlib/props/c18f.py
 
     csvp <ctor> <table> <op> <op> …     ctor: d | f:<hex|.|null> | c:<int|null>:<int|null>
                                          table (the variable T): null | - (empty) | elements joined by `,` (`.` = "", `~` = null)
                                          ops: se | de:<hex|.|null> | dn:<hex|.|null> | ie | ep
         -> model=<ok|E>;<res>|<table>;…  [kf=<id>]     (a failed constructor or a hazard token `H:<what>` ends the line) -/
-
-def KF_CSV_NULLELEM := "C18.csv_next_null_last_element"
 
 def parseBStr (s : String) : CsvPlugin.BStr := if s = "null" then none else some (parseBytes s)
 
@@ -305,7 +348,6 @@ def showCsvRes : CsvPlugin.Res → String
   | .str none => "N"
   | .str (some b) => "S:" ++ showBytes b
   | .err => "E"
-  | .hazardNullElem => "H:nullelem"
   | .hazardEmptyBack => "H:emptyback"
 
 def runCsvP : CsvPlugin.World → List CsvPlugin.Op → List String → Option String → List String × Option String
@@ -313,7 +355,7 @@ def runCsvP : CsvPlugin.World → List CsvPlugin.Op → List String → Option S
   | w, op :: ops, acc, kf =>
     let r := CsvPlugin.step w op
     if r.2.isHazard then
-      (showCsvRes r.2 :: acc, match r.2 with | .hazardNullElem => some KF_CSV_NULLELEM | _ => kf)
+      (showCsvRes r.2 :: acc, kf)
     else runCsvP r.1 ops ((showCsvRes r.2 ++ "|" ++ showTable r.1.tbl) :: acc) kf
 
 def csvpCmd (ctor tbl : String) (toks : List String) : String :=
@@ -335,6 +377,7 @@ def handle (words : List String) : Option String :=
   | "u8" :: op :: args => some (u8Cmd op args)
   | "u8p" :: mem :: uh :: vh :: toks => some (u8pCmd mem uh vh toks)
   | "csvp" :: ctor :: tbl :: toks => some (csvpCmd ctor tbl toks)
+  | "u8t" :: tbl :: uh :: toks => some (u8tCmd tbl uh toks)
   | _ => none
 
 end BlocV.DrvC18
